@@ -565,6 +565,9 @@ class FixedWidthBinning(BinningBase):
             if np.size(values) == 0:
                 return None
             min_, max_ = np.min(values), np.max(values)
+            if not (np.isfinite(min_) and np.isfinite(max_)):
+                # Fail before the minimum has changed the schema
+                raise ValueError("Cannot create bins for non-finite values.")
             result = self._force_bin_existence_single(min_)
             result2 = self._force_bin_existence_single(
                 max_, includes_right_edge=includes_right_edge
